@@ -15,7 +15,7 @@ META = {
                         'samples and fill values; section windows by time and by index',
                'thorough': 'steps=4 with n=10; n=12 for steps 2,3'},
     'outside': ['combine_motions, calculate_ratios', 'symbolic angles (cos/sin have no decision procedure; enumerated)',
-                'lag matching when another lag inside the window also has exactly zero misfit (precondition)'],
+                'lag matching when another lag inside the window also has zero misfit (precondition, imposed in its linear form: for every wrong lag the first compared sample differs)'],
     'assumptions': [],
 }
 
@@ -132,11 +132,9 @@ def time_match(ctx, n, steps, lag, k=2, master=0):
         for cand in range(-(steps - 1), steps):
             if cand == L:
                 continue
-            tot = 0.0
-            for t in range(n - steps):
-                d = (om[t + cand] - bm[t]) if cand >= 0 else (bm[t - cand] - om[t])
-                tot = tot + d * d
-            ctx.assume(tot > 0)
+            # linear form of the precondition: the first compared sample already differs for every wrong lag
+            d0 = (om[cand] - bm[0]) if cand >= 0 else (bm[-cand] - om[0])
+            ctx.assume(d0 != 0)
     try:
         cl.time_match(steps=steps)
     except UnboundLocalError:
